@@ -12,9 +12,17 @@
 (* roots are scanned once, at the start of the cycle.  RescanRoots = TRUE  *)
 (* is the repair: when the grey stack drains, the roots are marked again   *)
 (* and sweeping starts only if that finds nothing new.                     *)
+(*                                                                         *)
+(* Call frames: the slots 1..base of the stack belong to suspended callers *)
+(* (Call / Return move `base`; the running function only pops, loads and   *)
+(* stores above it, but every slot is a root).  RescanScope = "all" is the *)
+(* code: the rescan walks the whole value stack.  RescanScope = "frame"    *)
+(* is a tempting optimisation (rescan only the running frame) that TLC     *)
+(* refutes: a caller that received a white value from the heap before the  *)
+(* call keeps it in a slot the rescan no longer visits.                    *)
 (***************************************************************************)
 EXTENDS Naturals, Sequences, FiniteSets, TLC
-CONSTANTS NObj, MaxStack, MaxFields, RescanRoots, WithStrOps
+CONSTANTS NObj, MaxStack, MaxFields, RescanRoots, WithStrOps, RescanScope
 
 Obj == 1..NObj
 VARIABLES alive,    \* objects currently allocated
@@ -26,13 +34,17 @@ VARIABLES alive,    \* objects currently allocated
           gray,     \* the grey stack
           gc,       \* "Idle" | "Marking" | "Sweeping"
           idx,      \* sweep position in heap (1-based)
-          heap      \* heap_list: order matters because sweep uses swap_remove
-vars == <<alive, freed, flds, stack, strop, visited, gray, gc, idx, heap>>
+          heap,     \* heap_list: order matters because sweep uses swap_remove
+          base,     \* number of stack slots that belong to suspended callers (stack_base)
+          bases     \* the saved bases of the suspended callers (call_stack)
+vars == <<alive, freed, flds, stack, strop, visited, gray, gc, idx, heap, base, bases>>
 
 Init == /\ alive = {} /\ freed = {} /\ flds = [o \in Obj |-> <<>>] /\ stack = <<>> /\ strop = <<>>
         /\ visited = [o \in Obj |-> FALSE] /\ gray = <<>> /\ gc = "Idle" /\ idx = 1 /\ heap = <<>>
+        /\ base = 0 /\ bases = <<>>
 
 Fresh == Obj \ (alive \cup freed)
+MaxFrames == 1          \* one suspended caller is enough to separate the two rescan scopes
 Rng(s) == {s[i] : i \in DOMAIN s}
 Front(s) == SubSeq(s, 1, Len(s) - 1)
 Last(s) == s[Len(s)]
@@ -40,7 +52,7 @@ Last(s) == s[Len(s)]
 \* ------------------------------------------------------------------ mutator
 \* ConstructStruct/Array/Variant, MakeClosure, String*: pops n operands into a new object.
 \* Colour: white when Idle, black otherwise; additionally pushed grey while Marking.
-Alloc(n) == /\ Fresh # {} /\ n <= Len(stack) /\ n <= MaxFields
+Alloc(n) == /\ Fresh # {} /\ n <= Len(stack) - base /\ n <= MaxFields
             /\ LET o == CHOOSE x \in Fresh : \A y \in Fresh : x <= y
                    kids == SubSeq(stack, Len(stack) - n + 1, Len(stack))
                IN /\ alive' = alive \cup {o}
@@ -50,59 +62,72 @@ Alloc(n) == /\ Fresh # {} /\ n <= Len(stack) /\ n <= MaxFields
                   /\ gray' = IF gc = "Marking" THEN Append(gray, o) ELSE gray
                   /\ heap' = Append(heap, o)
             /\ Len(stack) - n < MaxStack
-            /\ UNCHANGED <<freed, strop, gc, idx>>
+            /\ UNCHANGED <<freed, strop, gc, idx, base, bases>>
 \* LoadOffset / Duplicate
 Dup(i) == /\ i \in DOMAIN stack /\ Len(stack) < MaxStack
           /\ stack' = Append(stack, stack[i])
-          /\ UNCHANGED <<alive, freed, flds, strop, visited, gray, gc, idx, heap>>
+          /\ UNCHANGED <<alive, freed, flds, strop, visited, gray, gc, idx, heap, base, bases>>
 \* Pop / StoreOffset over a pointer slot / Return dropping locals
-Pop == /\ stack # <<>> /\ stack' = Front(stack)
-       /\ UNCHANGED <<alive, freed, flds, strop, visited, gray, gc, idx, heap>>
+Pop == /\ Len(stack) > base /\ stack' = Front(stack)
+       /\ UNCHANGED <<alive, freed, flds, strop, visited, gray, gc, idx, heap, base, bases>>
 \* GetField / GetIndex / DeconstructVariant (no read barrier in the code)
-GetField(i) == /\ stack # <<>>
+GetField(i) == /\ Len(stack) > base
                /\ LET o == Last(stack) IN /\ i \in DOMAIN flds[o]
                                           /\ stack' = Append(Front(stack), flds[o][i])
-               /\ UNCHANGED <<alive, freed, flds, strop, visited, gray, gc, idx, heap>>
+               /\ UNCHANGED <<alive, freed, flds, strop, visited, gray, gc, idx, heap, base, bases>>
 \* the Dijkstra insertion barrier of write_barrier()
 Barrier(parent, child) ==
    IF gc = "Marking" /\ visited[parent] /\ ~visited[child]
    THEN /\ visited' = [visited EXCEPT ![child] = TRUE] /\ gray' = Append(gray, child)
    ELSE UNCHANGED <<visited, gray>>
 \* SetField / SetIndex
-SetField(i) == /\ Len(stack) >= 2
+SetField(i) == /\ Len(stack) - base >= 2
                /\ LET o == Last(stack) v == stack[Len(stack) - 1] IN
                     /\ i \in DOMAIN flds[o]
                     /\ Barrier(o, v)
                     /\ flds' = [flds EXCEPT ![o][i] = v]
                     /\ stack' = SubSeq(stack, 1, Len(stack) - 2)
-               /\ UNCHANGED <<alive, freed, strop, gc, idx, heap>>
+               /\ UNCHANGED <<alive, freed, strop, gc, idx, heap, base, bases>>
 \* ArrayPush / ChannelWrite
-ArrayPush == /\ Len(stack) >= 2
+ArrayPush == /\ Len(stack) - base >= 2
              /\ LET v == Last(stack) o == stack[Len(stack) - 1] IN
                     /\ Len(flds[o]) < MaxFields
                     /\ Barrier(o, v)
                     /\ flds' = [flds EXCEPT ![o] = Append(@, v)]
                     /\ stack' = SubSeq(stack, 1, Len(stack) - 2)
-             /\ UNCHANGED <<alive, freed, strop, gc, idx, heap>>
+             /\ UNCHANGED <<alive, freed, strop, gc, idx, heap, base, bases>>
 \* ArrayPop: removes the edge and moves the element to the operand stack (no barrier in the code)
-ArrayPop == /\ stack # <<>>
+ArrayPop == /\ Len(stack) > base
             /\ LET o == Last(stack) IN /\ flds[o] # <<>>
                                        /\ stack' = Append(Front(stack), Last(flds[o]))
                                        /\ flds' = [flds EXCEPT ![o] = Front(@)]
-            /\ UNCHANGED <<alive, freed, strop, visited, gray, gc, idx, heap>>
+            /\ UNCHANGED <<alive, freed, strop, visited, gray, gc, idx, heap, base, bases>>
 \* first step of ConcatStrings / string comparison: the operands are popped and parked
-ParkStrOp == /\ WithStrOps /\ strop = <<>> /\ stack # <<>>
+ParkStrOp == /\ WithStrOps /\ strop = <<>> /\ Len(stack) > base
              /\ strop' = <<Last(stack)>> /\ stack' = Front(stack)
-             /\ UNCHANGED <<alive, freed, flds, visited, gray, gc, idx, heap>>
+             /\ UNCHANGED <<alive, freed, flds, visited, gray, gc, idx, heap, base, bases>>
 \* last step: the result is allocated, the parked operands are dropped (not cleared in the code, but
 \* overwritten by the next string instruction; a stale operand is only an extra root, modelled as still parked)
 UnparkStrOp == /\ WithStrOps /\ strop # <<>> /\ strop' = <<>>
-               /\ UNCHANGED <<alive, freed, flds, stack, visited, gray, gc, idx, heap>>
+               /\ UNCHANGED <<alive, freed, flds, stack, visited, gray, gc, idx, heap, base, bases>>
+\* Call: the current depth becomes the base of the callee (its arguments stay in the caller's part and are read with Dup)
+Call == /\ Len(bases) < MaxFrames /\ base < Len(stack)
+        /\ bases' = Append(bases, base) /\ base' = Len(stack)
+        /\ UNCHANGED <<alive, freed, flds, stack, strop, visited, gray, gc, idx, heap>>
+\* Return / ReturnVoid: the callee's slots are dropped (a returned pointer is a Dup into a caller slot followed by Return)
+Return == /\ bases # <<>>
+          /\ stack' = SubSeq(stack, 1, base) /\ base' = Last(bases) /\ bases' = Front(bases)
+          /\ UNCHANGED <<alive, freed, flds, strop, visited, gray, gc, idx, heap>>
+\* StoreOffset into a slot of the caller's part (a parameter): `s = a.pop()` with s a parameter
+StoreParam == /\ bases # <<>> /\ Len(stack) > base /\ base >= 1
+              /\ stack' = [Front(stack) EXCEPT ![base] = Last(stack)]
+              /\ UNCHANGED <<alive, freed, flds, strop, visited, gray, gc, idx, heap, base, bases>>
 Mutate == \/ \E n \in 0..MaxFields : Alloc(n)
           \/ \E i \in 1..MaxStack : Dup(i)
           \/ Pop
           \/ \E i \in 1..MaxFields : GetField(i) \/ SetField(i)
           \/ ArrayPush \/ ArrayPop \/ ParkStrOp \/ UnparkStrOp
+          \/ Call \/ Return \/ StoreParam
 
 \* ------------------------------------------------------------------ collector
 RECURSIVE MarkAll(_, _, _)
@@ -111,22 +136,24 @@ MarkAll(s, vis, gr) == IF s = <<>> THEN <<vis, gr>>
                             IF vis[o] THEN MarkAll(Tail(s), vis, gr)
                             ELSE MarkAll(Tail(s), [vis EXCEPT ![o] = TRUE], Append(gr, o))
 Roots == stack \o strop
+\* what the rescan at the end of marking looks at
+RescanSeq == IF RescanScope = "all" THEN Roots ELSE SubSeq(stack, base + 1, Len(stack)) \o strop
 \* start_mark_phase: every root greyed
 StartMark == /\ gc = "Idle" /\ heap # <<>>
              /\ LET r == MarkAll(Roots, visited, gray) IN visited' = r[1] /\ gray' = r[2]
              /\ gc' = "Marking"
-             /\ UNCHANGED <<alive, freed, flds, stack, strop, idx, heap>>
+             /\ UNCHANGED <<alive, freed, flds, stack, strop, idx, heap, base, bases>>
 \* process_gray, one object; when the grey stack is empty the phase ends
 MarkStep == /\ gc = "Marking"
             /\ IF gray # <<>>
                THEN LET o == Last(gray)
                         r == MarkAll(flds[o], [visited EXCEPT ![o] = TRUE], Front(gray))
                     IN /\ visited' = r[1] /\ gray' = r[2] /\ UNCHANGED <<gc, idx>>
-               ELSE IF RescanRoots /\ \E i \in DOMAIN Roots : ~visited[Roots[i]]
-                    THEN LET r == MarkAll(Roots, visited, gray) IN
+               ELSE IF RescanRoots /\ \E i \in DOMAIN RescanSeq : ~visited[RescanSeq[i]]
+                    THEN LET r == MarkAll(RescanSeq, visited, gray) IN
                            /\ visited' = r[1] /\ gray' = r[2] /\ UNCHANGED <<gc, idx>>
                     ELSE /\ gc' = "Sweeping" /\ idx' = 1 /\ UNCHANGED <<visited, gray>>
-            /\ UNCHANGED <<alive, freed, flds, stack, strop, heap>>
+            /\ UNCHANGED <<alive, freed, flds, stack, strop, heap, base, bases>>
 \* sweep, one heap_list slot: free a white object (swap_remove) or whiten a survivor
 SweepStep == /\ gc = "Sweeping"
              /\ IF idx > Len(heap)
@@ -139,7 +166,7 @@ SweepStep == /\ gc = "Sweeping"
                           /\ UNCHANGED <<visited, idx, gc>>
                      ELSE /\ visited' = [visited EXCEPT ![o] = FALSE] /\ idx' = idx + 1
                           /\ UNCHANGED <<alive, freed, heap, gc>>
-             /\ UNCHANGED <<flds, stack, strop, gray>>
+             /\ UNCHANGED <<flds, stack, strop, gray, base, bases>>
 Collect == StartMark \/ MarkStep \/ SweepStep
 Next == Mutate \/ Collect
 Spec == Init /\ [][Next]_vars
